@@ -15,7 +15,7 @@ ASSUMPTIONS = ["SciPy evaluates the hypergeometric cdf in doubles: cases where a
                "lower <= upper for tail levels in (0, 1/2] and nesting in the level are theorems (HGOrder.hypergeomCI_ordered, hg_lower_nested, "
                "hg_upper_nested, from the coupling inequality hyperCdf_succ_ge) and are also checked on the implementation"]
 CLS = [0.95, 0.9, 0.975, 0.5, 0.99, 0.8, 0.3, 0.05, 0.75, 0.875]
-EXT = [1 - 1e-9, 0.999999, 1 - 1e-12, 1 - 2.0 ** -40]      # levels so close to 1 that 1 - cl is far below the smallest tail of a small population
+EXT = [1 - 1e-9, 0.999999, 1 - 1e-12, 1 - 2.0 ** -40, 1 - 1e-11, 1 - 2.0 ** -50]      # levels so close to 1 that 1 - cl is far below the smallest tail of a small population
 ALTS = ["two-sided", "lower", "upper"]
 
 
@@ -52,7 +52,8 @@ def near_tie(n, x, N, cl, alt, cands):
     for G in cands:
         for G2 in (G - 1, G, G + 1):
             if 0 <= G2 <= N:
-                if abs(sf(N, G2, n, x) - a) <= Fr(1, 10**12) or abs(cdf(N, G2, n, x) - a) <= Fr(1, 10**12):
+                tol = min(Fr(1, 10**12), a / 4)      # (levels next to 1: a tail of exactly 0 is not "within rounding" of a = 1e-12)
+                if abs(sf(N, G2, n, x) - a) <= tol or abs(cdf(N, G2, n, x) - a) <= tol:
                     return True
     return False
 
